@@ -1,6 +1,9 @@
 --------------------------- MODULE Gen_PresentRR ---------------------------
 (* Vector generator for C05.  Same record shape as Gen_WireRR (it EXTENDS it,  *)
 (* so the C01 universe is reused as is), plus                                  *)
+(*   canon   per record: the abstract value is one that text or the wire can     *)
+(*           produce (origin "built from the abstract value" stands for "parsed   *)
+(*           from text"); an APL address with host bits beyond its prefix is not *)
 (*   alpha   per record of the message (answer, authority, additional order):  *)
 (*           the RDATA stays inside the alphabets / ranges the RFC of the type *)
 (*           defines (PresentRR!InAlphabet) -- a failure outside is AMBIG      *)
@@ -16,12 +19,40 @@
 (*            255 octets, empty, text that looks like an escape ... ; names    *)
 (*            get them as labels; SvcParams as alpn ids / opaque values;       *)
 (*            restricted fields also get values INSIDE their alphabet          *)
+(*   "blobs"  maximal blobs: for every blob-valued field (hex / base64 to the end *)
+(*            of RDATA, HIP's sized key, opaque RDATA of an unknown type and of  *)
+(*            NULL, TXT made of 255-octet strings) a record whose RDATA is        *)
+(*            32767 / 32768 / 32769 / 49152 / 65535 octets, plus NSEC3 with a    *)
+(*            255-octet salt and a 255-octet hash.  Hex and base64 text is       *)
+(*            longer than the octets it spells: one item of 2 x 65535 chars.     *)
 (*   "codes"  type and class code points: TYPEnnn / CLASSnnn, the mnemonic     *)
 (*            where one exists, RFC 3597 generic RDATA (valid RDATA of the     *)
 (*            type for layout types), and the octets the record must pack to   *)
 EXTENDS Gen_WireRR, PresentRR
 
 CONSTANTS PMode
+
+-----------------------------------------------------------------------------
+(* Maximal blobs *)
+BlobSizes == <<32767, 32768, 32769, 49152, 65535>>
+BlobKinds == {"hex", "b64", "raw"}
+\* unknown type, NULL, TXT; hex: EID NIMLOC DS CDS TA DLV SSHFP TLSA SMIMEA ZONEMD; base64: DNSKEY KEY CDNSKEY RKEY CERT DHCID OPENPGPKEY
+\* IPSECKEY RRSIG SIG; HIP (sized key in one item).  Both tiers: the family is small (121 vectors, seconds).
+BlobTypes == <<65281, 10, 16, 31, 32, 43, 59, 32768, 32769, 44, 52, 53, 63, 48, 25, 60, 57, 37, 49, 61, 45, 46, 24, 55>>
+\* the blob field of a type: its last field of an opaque kind
+BlobIdx(t) == LET es == FieldsOf(t) IN CHOOSE i \in 1..Len(es) : es[i].k \in BlobKinds /\ \A j \in (i + 1)..Len(es) : es[j].k \notin BlobKinds
+\* TXT: 255-octet strings (256 octets of RDATA each) and one shorter string for the rest
+TxtOfSize(n) ==
+  LET full == n \div 256  rest == n % 256 IN
+  [i \in 1..(full + (IF rest > 0 THEN 1 ELSE 0)) |-> IF i <= full THEN [j \in 1..255 |-> (i + j * 7) % 256] ELSE [j \in 1..(rest - 1) |-> 33 + (j % 90)]]
+BlobMsg(t, k) ==
+  LET n == BlobSizes[k] IN
+  IF t = 16 THEN One1(16, [Txt |-> TxtOfSize(n)])
+  ELSE LET es == FieldsOf(t)  i == BlobIdx(t)
+           fixed == Len(EncRdata(t, With(es, i, <<>>))) IN
+       One1(t, With(es, i, Ramp(n - fixed)))
+MaxNsec3Msg == One1(50, [Hash |-> 1, Flags |-> 1, Iterations |-> 65535, SaltLength |-> 255, Salt |-> Ramp(255), HashLength |-> 255,
+                         NextDomain |-> [i \in 1..255 |-> (i * 11) % 256], TypeBitMap |-> [i \in 1..300 |-> i * 218]])
 
 -----------------------------------------------------------------------------
 TableCodes(tab) == { tab[i][2] : i \in 1..Len(tab) }
@@ -140,19 +171,26 @@ PInit ==
            \/ t = 50 /\ \E j \in 1..(Len(N3Salts) * Len(N3Maps)) : v = <<-1, 0, j>>
            \/ t = 37 /\ \E j \in 1..(Len(CertCodes) + Len(AlgCodes)) : v = <<-2, 0, j>>
            \/ t = 29 /\ \E j \in 1..Len(LocCases) : v = <<-3, 0, j>>
+  \/ PMode = "blobs" /\ \/ \E x \in 1..Len(BlobTypes), k \in 1..Len(BlobSizes) : InShard(BlobTypes[x] + k) /\ v = <<BlobTypes[x], k>>
+                        \/ InShard(0) /\ v = <<50, 0>>
   \/ PMode = "codes" /\ \E k \in 1..2 : \E c \in CodeSet : InShard(c) /\ v = <<k, c>>
 PNext == UNCHANGED v
 
 PCase == IF PMode = "c01" THEN Case
+         ELSE IF PMode = "blobs" THEN (IF v[2] = 0 THEN MaxNsec3Msg ELSE BlobMsg(v[1], v[2]))
          ELSE IF v[1] = 0 THEN OwnerMsg(v[3])
          ELSE IF v[1] = -1 THEN Nsec3Msg(v[3])
          ELSE IF v[1] = -2 THEN CertMsg(v[3])
          ELSE IF v[1] = -3 THEN LocMsg(v[3])
          ELSE NastyMsg(v[1], v[2], v[3])
 
+\* a value that text or the wire can produce: an APL item names a network, its address has no bits beyond the prefix
+\* (WireRR!MaskTo; a hand-built net.IPNet may carry host bits, the packer masks them, the statement does not speak of it)
+Canonical(rr) == rr.nodata \/ rr.type # 42 \/ \A i \in 1..Len(rr.f.Prefixes) : MaskTo(rr.f.Prefixes[i].addr, rr.f.Prefixes[i].prefix) = rr.f.Prefixes[i].addr
 PVector(m) ==
   LET rrs == m.an \o m.ns \o m.ar IN
-  [alpha |-> [i \in 1..Len(rrs) |-> rrs[i].nodata \/ InAlphabet(rrs[i].type, RdataOf(rrs[i]))],
+  [canon |-> [i \in 1..Len(rrs) |-> Canonical(rrs[i])],
+   alpha |-> [i \in 1..Len(rrs) |-> rrs[i].nodata \/ InAlphabet(rrs[i].type, RdataOf(rrs[i]))],
    g |-> IF PMode = "c01" THEN Mode ELSE PMode] @@ Vector(m)
 
 PItem(e) == IF "of" \in DOMAIN e THEN [n |-> e.n, p |-> e.p, of |-> e.of] ELSE [n |-> e.n, p |-> e.p]
